@@ -164,19 +164,6 @@ def phylipFormat (bs : Nat) (recs : List Rec) : Except Err Str :=
 
 /-! ### FASTA / GDE parsers (parse/fasta.py) -/
 
-/-- Behaviour switches: the two places where the modelled parsers of the pinned code and of the code with the
-proposed repairs (`fixes/C06-fasta-pre-label-text.patch`, `fixes/C06-gde-hash-label-strict.patch`) differ.
-The harness determines both switches by one probe each and then compares the code with that model on ALL
-inputs; every theorem is proved for every `Cfg` (the well-formed inputs never reach the switches). -/
-structure Cfg where
-  /-- `iter_fasta_records(bytes)` ignores whatever precedes the first label line (`records[1:]`) -/
-  dropPreLabel : Bool
-  /-- `_strict_parser` treats a `#` line as a comment only if `#` is not a label character (GDE) -/
-  gdeHashLabel : Bool
-  deriving DecidableEq, Repr
-
-/-- the code as pinned in /repo -/
-def Cfg.pinned : Cfg := ⟨false, false⟩
 
 /-- `line[0] in label_char` for a non-empty line -/
 def isLabel (lc : List Char) (line : Str) : Bool :=
@@ -200,32 +187,33 @@ def fasterGo (lc : List Char) : Option Str → List Str → List Str → List Re
 def fasterParser (lc : List Char) (lines : List Str) : List Rec := fasterGo lc none [] lines
 
 /-- `_strict_parser` (l.95-123); the generator's first `raise` is the result of `list(...)` -/
-def strictGo (cfg : Cfg) (lc : List Char) : Option Str → List Str → List Str → Except Err (List Rec)
+def strictGo (lc : List Char) : Option Str → List Str → List Str → Except Err (List Rec)
   | label, seq, [] =>
     if seq.isEmpty then .error .recordError
     else match label with
       | none => .error .recordError
       | some l => .ok [(l, clean seq)]
   | label, seq, line :: rest =>
-    if line.isEmpty || (line.head? = some '#' && !(cfg.gdeHashLabel && lc.contains '#')) then strictGo cfg lc label seq rest
+    -- `not line or (line[0] == "#" and "#" not in label_char)`: a `#` line is a comment unless `#` labels records (GDE)
+    if line.isEmpty || (line.head? = some '#' && !lc.contains '#') then strictGo lc label seq rest
     else if isLabel lc line then
       match label with
       | some l =>
         if seq.isEmpty then .error .recordError
-        else (strictGo cfg lc (some (strip (line.drop 1))) [] rest).map (fun rs => (l, clean seq) :: rs)
+        else (strictGo lc (some (strip (line.drop 1))) [] rest).map (fun rs => (l, clean seq) :: rs)
       | none =>
         if !seq.isEmpty then .error .recordError
-        else strictGo cfg lc (some (strip (line.drop 1))) [] rest
-    else strictGo cfg lc label (seq ++ [strip line]) rest
+        else strictGo lc (some (strip (line.drop 1))) [] rest
+    else strictGo lc label (seq ++ [strip line]) rest
 
-def strictParser (cfg : Cfg) (lc : List Char) (lines : List Str) : Except Err (List Rec) := strictGo cfg lc none [] lines
+def strictParser (lc : List Char) (lines : List Str) : Except Err (List Rec) := strictGo lc none [] lines
 
 /-- `MinimalFastaParser(path, strict)` on the *text* of a file: `_prep_data` does
 `infile.read().splitlines()`; `if not path: return []` is the caller's business -/
-def fastaStrict (cfg : Cfg) (text : Str) : Except Err (List Rec) := strictParser cfg ['>'] (pySplitlines text)
+def fastaStrict (text : Str) : Except Err (List Rec) := strictParser ['>'] (pySplitlines text)
 def fastaFaster (text : Str) : List Rec := fasterParser ['>'] (pySplitlines text)
 /-- `MinimalGdeParser`: label characters `"%#"` -/
-def gdeStrict (cfg : Cfg) (text : Str) : Except Err (List Rec) := strictParser cfg ['%', '#'] (pySplitlines text)
+def gdeStrict (text : Str) : Except Err (List Rec) := strictParser ['%', '#'] (pySplitlines text)
 
 /-- `minimal_converter.__call__`: upper-case, delete `b"\n\r\t "` -/
 def convertBytes (s : Str) : Str :=
@@ -247,9 +235,9 @@ def splitLabelStart : Bool → Str → List Str
     else consHead c (splitLabelStart (c = '\n') cs)
 
 /-- `iter_fasta_records(data: bytes)` (l.421-442) -/
-def fastaBytes (cfg : Cfg) (text : Str) : List Rec :=
-  let pieces := splitLabelStart true text
-  (if cfg.dropPreLabel then pieces.drop 1 else pieces).filterMap bytesRecord
+def fastaBytes (text : Str) : List Rec :=
+  -- `records = _label_start.split(data)[1:]`: whatever precedes the first label line is not a record
+  ((splitLabelStart true text).drop 1).filterMap bytesRecord
 
 /-! ### PAML parser (parse/paml.py) -/
 
